@@ -15,18 +15,30 @@ Streams
                 roundtrip extract_variable then inline of the new variable: equivalent to the original
                 parens    every table row: the inlined program has the AST of the correctly
                           parenthesised one; a differing row is executed to show the changed value
+  flow          (reported under oracle-compile / oracle-equiv, buckets `extract_function/flow...`) statement
+                ranges = runs of 1..4 whole sibling statements of every suite of function bodies with control
+                flow (gen.refactor_gen.FlowG: if / elif / else, for with break / continue / else over possibly
+                empty tuples, try / except / else / finally, nested blocks, rebinding on some paths, augmented
+                and tuple assignment, loop-carried names): extract_function, compile, then the entry function
+                of the old and the new program is called on argument tuples drawn until every line of the
+                selection was executed (gen.refactor_flow); same return value required wherever the
+                original returns.  Run in fresh-interpreter workers next to the in-process streams.
+  inputs        real `extract._find_inputs_and_outputs` calls: the names of the selection with the verdict of
+                the real lookup for EVERY read (computed by the harness with the real `context.goto` /
+                `_is_name_input`), the Lean model `findInputsOutputs` must return the same two lists
 """
 import ast
 import json
+import os
 import re
 import warnings
 
 import common
 from common import short
-from gen import refactor_gen, refactor_shapes
+from gen import refactor_gen, refactor_shapes, refactor_flow
 from props.c07 import dump_tree, load_own_known, split_keepends, sandbox_quirk
 
-MODELS = ['Refactor', 'Tree']
+MODELS = ['Refactor', 'Tree', 'ExtractIO']
 MANIFEST = dict(
     text='Theorems over the model of refactoring.inline and extract._replace: inline either refuses (messages '
          'identical to the source, translator-checked) or rewrites only the references, the defining statement and '
@@ -37,14 +49,21 @@ MANIFEST = dict(
          'counter-example replayed on the real code = F7/F8 and relatives; none for the fixed shape, where the FULL '
          'soundness theorem holds; a general theorem shows every rule at least as strong as the proposed fix is '
          'sound); _replace inserts the extracted line into the prefix, keeps every other byte, and keeps the whole '
-         'prefix of the replaced expression. Tie: translator + correspondence (table rows through the real inline '
-         'and through CPython ast; captured inline/_replace calls on generated programs). Compiles-or-refuses, '
-         'behavioural equivalence and the extract->inline round trip are checked by compiling and executing '
-         'generated programs (a test, labelled as such); failures of known root causes are recognised by an '
-         'explicit syntactic rule per root cause (harness/gen/refactor_shapes.py), anything else is a VIOLATION.',
-    note='Modelled not verified: which names get_references returns, _find_nodes (selection normalisation) and '
-         "extract_function's input/output analysis are oracle-checked only; CPython's parser is the judge of "
-         'the precedence table.',
+         'prefix of the replaced expression; the loop of extract._find_inputs_and_outputs (which names of a '
+         'statement selection become parameters; loop shape translator-checked, original and fixed shape accepted) '
+         'is complete, sound and duplicate-free relative to the per-occurrence verdict of the real lookup: every '
+         'read whose lookup leaves the selection yields a parameter whatever earlier occurrences of the name '
+         'resolved to (kernel-checked witness that a look-up-once loop is not). Tie: translator + correspondence '
+         '(table rows through the real inline and through CPython ast; captured inline / _replace / '
+         '_find_inputs_and_outputs calls on generated programs). Compiles-or-refuses, behavioural equivalence and '
+         'the extract->inline round trip are checked by compiling and executing generated programs (a test, '
+         'labelled as such), for statement ranges on function bodies with control flow by calling the function of '
+         'the old and the new program on argument tuples drawn until every line of the selection ran; failures of '
+         'known root causes are recognised by an explicit rule per root cause (harness/gen/refactor_shapes.py, '
+         'harness/gen/refactor_flow.py), anything else is a VIOLATION.',
+    note='Modelled not verified: which names get_references returns, _find_nodes (selection normalisation), the '
+         "lookup verdicts (context.goto, flow analysis) and the output analysis of extract_function are "
+         "oracle-checked only; CPython's parser is the judge of the precedence table.",
     technique='Lean 4 proof over hand-written model + translator-generated constants + differential '
               'correspondence + execution oracle',
     design='5.C06')
@@ -86,7 +105,14 @@ def fail(ctx, stream, what, case, observed, expected=None, src=None, request=Non
     `src` / `request` = the program and request the shape is read from (default: the case itself)"""
     src = case['source'] if src is None else src
     request = case if request is None else request
-    shape = refactor_shapes.shape_of(src, request, stream, observed)
+    shape = None
+    if case.get('entry') is not None:
+        try:
+            shape = refactor_flow.flow_shape(src, request, stream, observed)
+        except Exception:               # a rule that cannot read the input does not explain it
+            shape = None
+    if shape is None:
+        shape = refactor_shapes.shape_of(src, request, stream, observed)
     ctx.fail(stream, what, dict(case, shape=shape), expected=expected, observed=observed, how=HOW)
 
 
@@ -183,13 +209,14 @@ class Capture:
     def __init__(self):
         self.inline_names = None
         self.replace_calls = []
+        self.inputs_calls = []      # (request for the Lean model, what the real function returned)
 
     def __enter__(self):
         from jedi.api import refactoring
         from jedi.api.refactoring import extract
         import jedi.api as api
         self.mods = (refactoring, extract)
-        self.orig = (refactoring.inline, extract._replace)
+        self.orig = (refactoring.inline, extract._replace, extract._find_inputs_and_outputs)
         cap = self
 
         def inline(inference_state, names):
@@ -202,12 +229,44 @@ class Capture:
             cap.replace_calls.append((list(nodes), expression_replacement, extracted, insert_before_leaf,
                                       remaining_prefix, dict(res)))
             return res
+        def _find_inputs_and_outputs(module_context, context, nodes):
+            res = cap.orig[2](module_context, context, nodes)
+            try:
+                cap.inputs_calls.append(inputs_request(module_context, context, nodes, res))
+            except Exception as e:      # the verdicts use the same inference as the call itself
+                if not sandbox_quirk(e):
+                    raise
+            return res
         refactoring.inline = inline
         extract._replace = _replace
+        extract._find_inputs_and_outputs = _find_inputs_and_outputs
         return self
 
     def __exit__(self, *a):
-        self.mods[0].inline, self.mods[1]._replace = self.orig
+        self.mods[0].inline, self.mods[1]._replace, self.mods[1]._find_inputs_and_outputs = self.orig
+
+
+def inputs_request(module_context, context, nodes, result):
+    """the name leaves of the selection as `_find_inputs_and_outputs` walks them, each with the verdict of the
+    REAL lookup of that occurrence (asked for every read, also those the loop of the source skips)"""
+    from jedi.api.refactoring import extract
+    first, last = nodes[0].start_pos, nodes[-1].end_pos
+    occs = []
+    for name in extract._find_non_global_names(nodes):
+        is_def = name.is_definition()
+        aug = False
+        if is_def:
+            d = name.get_definition()
+            aug = d is not None and d.type == 'expr_stmt' and d.children[1].type == 'operator' \
+                and d.children[1].value != '='
+        outer = False
+        if not is_def or aug:
+            pos = extract._get_lookup_position(name) if hasattr(extract, '_get_lookup_position') \
+                else name.start_pos
+            defs = context.goto(name, pos)
+            outer = (not defs) or bool(extract._is_name_input(module_context, defs, first, last))
+        occs.append({'value': name.value, 'is_def': bool(is_def), 'aug': bool(aug), 'outer': bool(outer)})
+    return {'op': 'inputs', 'occs': occs}, {'inputs': list(result[0]), 'outputs': list(result[1])}
 
 
 def _is_dstar(node):
@@ -527,6 +586,9 @@ def stream_programs(ctx, reqs, pending):
                     req, impl = replace_request(call, script._module_node)
                     reqs.append(req)
                     pending.append(('replace', case, impl))
+            for req, impl in cap.inputs_calls:
+                reqs.append(req)
+                pending.append(('inputs', case, impl))
             if err is not None:
                 ctx.count('oracle-compile', key, nontrivial=False, bucket=kind + '/refused')
                 continue
@@ -592,6 +654,158 @@ def stream_programs(ctx, reqs, pending):
                              request=rreq)
 
 
+# ------------------------------------------------------------------ statement ranges with control flow
+
+FLOW_HOW = ("s = jedi.Script(source); new = s.extract_function(line, column, new_name='extracted_1', until_line=.., "
+            "until_column=..).get_changed_files()[None].get_new_code(); exec old and new; "
+            "eval(entry)(*args) in both and compare (or: ./check C06 --replay <this file>)")
+CORPUS_DIR = os.path.join(common.VERIF, 'corpus', 'C06')
+
+
+def flow_case(src, entry, sel, args, tags):
+    return {'source': src, 'kind': 'extract_function', 'line': sel['start'][0], 'column': sel['start'][1],
+            'until_line': sel['until'][0], 'until_column': sel['until'][1], 'entry': entry, 'args': args,
+            'tags': tags}
+
+
+def flow_bucket(sel):
+    comp = sorted({k for k in sel.get('kinds', []) if k in ('if', 'for', 'try', 'while', 'with')})
+    return 'extract_function/flow:%s:%s' % ('nested' if sel.get('depth') else 'body', '+'.join(comp) or 'simple')
+
+
+def flow_judge(ctx, r, origin='generated program'):
+    """one record of gen.refactor_flow (worker or corpus) -> counts and failures; a corpus input and a generated
+    one that fail alike are reported separately (one replay each)"""
+    if r.get('rec') != 'case':
+        ctx.count('generator-rejects', None, nontrivial=False, bucket=str(r.get('detail'))[:60])
+        return
+    sel = r['sel']
+    key = (r.get('key') or r.get('source'), tuple(sel['start']), tuple(sel['until']))
+    bucket = flow_bucket(sel)
+    if r['status'] == 'refused':
+        ctx.count('oracle-compile', key, nontrivial=False, bucket='extract_function/flow/refused')
+        return
+    if r['status'] == 'raised':
+        # totality / exception classes are C07's statement: counted, not judged here
+        ctx.count('raised', None, nontrivial=False, bucket=r['detail'])
+        return
+    ctx.count('oracle-compile', key, nontrivial=True, bucket=bucket,
+              sample={'request': {'start': sel['start'], 'until': sel['until'], 'kinds': sel.get('kinds')}})
+    if r['status'] == 'no-compile':
+        case = flow_case(r['source'], r['entry'], sel, [], ['flow'] + list(sel.get('kinds', [])))
+        fail(ctx, 'oracle-compile', 'extract_function returned a program that does not compile (%s)' % origin, case,
+             observed={'error': r['error'], 'new_code': r['new_code']})
+        return
+    covered = r['covered'] == r['need']
+    ctx.count('oracle-equiv', key, nontrivial=covered and r['nargs'] > r['old_raises'],
+              bucket=bucket + ('' if covered else '/not-every-line-run') + ('/differs' if r['status'] == 'differs' else ''))
+    if r['status'] == 'differs':
+        for f in r['failures']:
+            case = flow_case(r['source'], r['entry'], sel, [f['args']] if f['args'] else [],
+                             ['flow'] + list(sel.get('kinds', [])))
+            fail(ctx, 'oracle-equiv', 'extract_function changed the behaviour of the function (%s)' % origin, case,
+                 expected={'outcome': f['old_outcome']},
+                 observed={'args': f['args'], 'old_outcome': f['old_outcome'], 'new_outcome': f['new_outcome'],
+                           'new_code': r['new_code']})
+
+
+def flow_one(src, entry, sel, args, sink=None):
+    """the property on one given (program, selection, argument tuples), in-process; sink = (reqs, pending):
+    the captured `_find_inputs_and_outputs` call goes to the Lean correspondence"""
+    sel = dict(sel)
+    full = [x for x in refactor_flow.selections(src)
+            if x['start'] == list(sel['start']) and x['until'] == list(sel['until'])]
+    if full:
+        sel = full[0]
+    else:
+        sel.setdefault('kinds', [])
+        sel.setdefault('depth', 0)
+    old = refactor_flow.Runner(src)
+    if old.error is not None:
+        return {'rec': 'generator-rejects', 'detail': old.error}
+    need = refactor_flow.selection_lines(src, {'start': sel['start'], 'until': sel['until']})
+    fname = entry.split('.')[-1].rstrip('()')
+    runs = [old.call(entry, a, trace_func=fname) for a in args]
+    covered = set()
+    for _o, lines in runs:
+        covered |= lines & need
+    e = {'entry': entry, 'name': fname}
+    with Capture() as cap:
+        res = refactor_flow.check_selection(src, e, sel, args, runs)
+    if sink is not None:
+        case = flow_case(src, entry, sel, args, ['flow'])
+        for req, impl in cap.inputs_calls:
+            sink[0].append(req)
+            sink[1].append(('inputs', case, impl))
+    res.update({'rec': 'case', 'entry': entry, 'sel': sel, 'covered': len(covered), 'need': len(need),
+                'old_raises': sum(1 for (o, l_) in runs if o[0] != 'ok' or refactor_flow.exception_leaves(l_, sel)),
+                'nargs': len(args), 'source': src,
+                'args_all': args})
+    return res
+
+
+def flow_in_process(ctx, sink):
+    """a few generated flow programs in-process: their `_find_inputs_and_outputs` calls feed the Lean
+    correspondence (the bulk of the flow stream runs in workers, oracle only)"""
+    rng = ctx.subrng('flow-in-process')
+    for _ in range(ctx.size(10, 150)):
+        src, entries = refactor_gen.gen_flow_program(rng)
+        sels = refactor_flow.selections(src)
+        for entry in entries:
+            mine = [x for x in sels if x['func'] == entry['name']]
+            args = refactor_gen.flow_arguments(rng, entry, 8)
+            for sel in refactor_flow.pick_selections(rng, mine, 4):
+                flow_judge(ctx, flow_one(src, entry['entry'], sel, args, sink))
+
+
+def flow_corpus(ctx, sink=None):
+    """corpus/C06/*.json: minimised past failures (one per root cause + the seeded classes), run first"""
+    import glob
+    for path in sorted(glob.glob(os.path.join(CORPUS_DIR, '*.json'))):
+        with open(path, encoding='utf-8') as f:
+            c = json.load(f)
+        if c.get('stream') != 'flow':
+            continue
+        flow_judge(ctx, flow_one(c['source'], c['entry'], {'start': c['start'], 'until': c['until']}, c['args'],
+                                 sink), origin='corpus/C06/' + os.path.basename(path))
+
+
+class FlowJob:
+    """the generated part of the flow stream: fresh-interpreter workers (common.parallel_map), started
+    before and collected after the in-process streams"""
+
+    def __init__(self, ctx):
+        import threading
+        n = ctx.size(280, 4000)
+        self.items = [{'seed': 'C06-%s-flow-%d' % (ctx.seed, i), 'programs': 1,
+                       'per_program': ctx.size(8, 12), 'nargs': ctx.size(10, 16)} for i in range(n)]
+        self.result = None
+        self.error = None
+        self.thread = threading.Thread(target=self._run, daemon=True)
+        self.thread.start()
+
+    def _run(self):
+        import time
+        t0 = time.time()
+        try:
+            self.result = common.parallel_map('gen.refactor_flow', 'flow_worker', self.items, jobs=14)
+        except BaseException as e:     # noqa: re-raised in the main thread
+            self.error = e
+        self.wall = time.time() - t0
+
+    def finish(self, ctx):
+        self.thread.join()
+        if self.error is not None:
+            raise self.error
+        n = 0
+        for recs in self.result:
+            for r in recs:
+                n += 1
+                flow_judge(ctx, r)
+        ctx.notes.append('flow stream: %d programs, %d (program, selection) cases in %.0f s wall of 14 workers, '
+                         'concurrent with the in-process streams' % (len(self.items), n, self.wall))
+
+
 def fixed_probes(ctx):
     """DESIGN section 6 F7 / F8 and the defects found while building this check, kept alive"""
     import jedi
@@ -629,6 +843,7 @@ def fixed_probes(ctx):
         ('def f():\n    a = 1\n    return a\ny = f()\n', 'extract_function', (2, 4), (2, 5)),
         ('def f():\n    a = 1\n    return a\ny = f()\n', 'extract_function', (2, 4), (2, 9)),
         ('def f():\n    a = 1\n    return a\ny = f()\n', 'extract_function', (3, 4), (4, 0)),
+        ('a = 1\nx = a * 3\na -= 1\ny = x\n', 'inline', (2, 0), None),
     ]
     from jedi.api.exceptions import RefactoringError
     for src, kind, pos, until in more:
@@ -670,6 +885,14 @@ def compare(ctx, reqs, pending, answers):
             model = {'error': ans['error']} if 'error' in ans else {'map': sorted(ans['map'])}
             ctx.count('inline', key, nontrivial='map' in model,
                       bucket='ok' if 'map' in model else model['error'][:40])
+        elif kind == 'inputs':
+            model = ans if 'error' in ans else {'inputs': ans['inputs'], 'outputs': ans['outputs']}
+            reads = [o for o in req['occs'] if not o['is_def'] or o['aug']]
+            names = {o['value'] for o in reads}
+            mixed = any(len({o['outer'] for o in reads if o['value'] == n}) > 1 for n in names)
+            ctx.count('inputs', key, nontrivial=any(o['outer'] for o in reads),
+                      bucket='verdicts-of-one-name-differ' if mixed else 'aug-target' if
+                      any(o['aug'] for o in req['occs']) else 'plain')
         else:
             if 'error' in ans:
                 model = ans
@@ -683,8 +906,15 @@ def compare(ctx, reqs, pending, answers):
 def run(ctx):
     load_own_known(ctx, 'C06')
     reqs, pending = [], []
+    import time
+    job = FlowJob(ctx)
+    t0 = time.time()
     fixed_probes(ctx)
+    flow_corpus(ctx, (reqs, pending))
+    flow_in_process(ctx, (reqs, pending))
     stream_programs(ctx, reqs, pending)
+    ctx.notes.append('in-process streams (probes, corpus, generated programs): %.0f s' % (time.time() - t0))
+    job.finish(ctx)
     if ctx.model_ok:
         # one driver run: the table first, then the captured inline / _replace calls
         answers = common.run_driver_parallel('C06', [{'op': 'table'}] + reqs)
@@ -697,8 +927,13 @@ def run(ctx):
         'parenthesised substitution) on every run; rows outside the table (f-strings, await, yield, walrus, '
         'decorators) are not covered',
         'get_references decides which names `inline` receives; the model starts from those names (captured)',
-        '_find_nodes / extract_function input-output analysis are not modelled: compile + execution oracle only',
-        'behaviour = final module globals of deterministic, builtin-free, exception-free generated programs',
+        '_find_nodes is not modelled: compile + execution oracle only',
+        'extract_function input analysis: the loop of _find_inputs_and_outputs is modelled and proved complete / sound / '
+        'duplicate-free relative to the per-occurrence verdict of the real lookup (context.goto + _is_name_input, flow '
+        'analysis), which is not modelled; whether those verdicts and the output analysis '
+        '(_find_needed_output_variables) are right is decided by the execution oracle of the flow stream only',
+        'behaviour = final module globals of deterministic, builtin-free, exception-free generated programs; for '
+        'the flow stream: the return value of the entry function on every drawn argument tuple',
     ]
 
 
@@ -708,6 +943,21 @@ def replay(ctx, payload):
     inp = payload['input']
     src = inp['source']
     print(src)
+    if inp.get('entry') is not None:
+        sel = {'start': [inp['line'], inp['column']], 'until': [inp['until_line'], inp['until_column']]}
+        args = inp.get('args') or refactor_gen.flow_arguments(ctx.rng, {'params': ['p'], 'tuples': []}, 4)
+        r = flow_one(src, inp['entry'], sel, args)
+        print('--- request: extract_function(%d, %d, new_name=\'extracted_1\', until_line=%d, until_column=%d); '
+              'entry %s, arguments %s' % (inp['line'], inp['column'], inp['until_line'], inp['until_column'],
+                                          inp['entry'], args))
+        print('--- status:', r.get('status'), r.get('error', ''))
+        if r.get('new_code'):
+            print('--- new code\n' + r['new_code'])
+        for f in r.get('failures', []):
+            print('arguments %s: old %s  new %s' % (f['args'], f['old_outcome'], f['new_outcome']))
+        print('reproduced:', 'yes' if r.get('status') in ('differs', 'no-compile') else 'no')
+        print('observed at record time:', short(payload.get('observed'), 800))
+        return 0
     s = jedi.Script(src)
     kind = inp['kind'].split('+')[0]
     if kind == 'inline':
